@@ -4,6 +4,8 @@ package main
 
 import (
 	"encoding/json"
+	"io"
+	"log"
 	"flag"
 	"fmt"
 	"os"
@@ -15,6 +17,7 @@ import (
 )
 
 func main() {
+	log.SetOutput(io.Discard) // the code under test logs through the standard logger
 	if len(os.Args) < 2 {
 		fmt.Fprintln(os.Stderr, "usage: vsim run|replay|list …")
 		os.Exit(2)
